@@ -10,6 +10,7 @@ import (
 	"path"
 	"path/filepath"
 	"regexp"
+	"runtime/debug"
 	"sort"
 	"strings"
 	"sync"
@@ -247,7 +248,7 @@ func pathSections(body []byte, css bool, known map[string]mfInput) []section {
 	for _, l := range lines {
 		t := strings.TrimSuffix(string(l), "\n")
 		var name string
-		if css && strings.HasPrefix(t, "/* ") && strings.HasSuffix(t, " */") {
+		if css && len(t) >= 7 && strings.HasPrefix(t, "/* ") && strings.HasSuffix(t, " */") {
 			name = t[3 : len(t)-3]
 		} else if !css && strings.HasPrefix(t, "// ") {
 			name = t[3:]
@@ -881,7 +882,20 @@ func checkMetamorphic(c Case, b1, b2 *built) (*vdrv.Verdict, string) {
 	return nil, "metamorphic-literal-not-emitted"
 }
 
-func judge(c Case) vdrv.Verdict {
+// harness panics must never pass silently nor become verdicts: they are counted and turn the run into an INFRA error.
+var harnessPanics []string
+
+func judge(c Case) (v vdrv.Verdict) {
+	defer func() {
+		if r := recover(); r != nil {
+			harnessPanics = append(harnessPanics, fmt.Sprintf("%v\n%s", r, debug.Stack()))
+			v = vdrv.Skip("harness-panic")
+		}
+	}()
+	return judgeCase(c)
+}
+
+func judgeCase(c Case) vdrv.Verdict {
 	p := c.Project
 	base, err := os.MkdirTemp("", "c19-")
 	if err != nil {
@@ -949,8 +963,8 @@ func judge(c Case) vdrv.Verdict {
 		p2 := applyLengthen(p, c.Lengthen)
 		if p2 == nil {
 			cls = append(cls, "metamorphic-not-applicable")
-		} else if o.Sourcemap == "inline" || o.Sourcemap == "both" {
-			cls = append(cls, "metamorphic-skipped-inline-map")
+		} else if o.Sourcemap == "inline" || o.Sourcemap == "both" || o.MinifyIDs || o.MangleProps {
+			cls = append(cls, "metamorphic-skipped-inline-map-or-charfreq")
 		} else {
 			root2 := filepath.Join(base, "p2")
 			if err := os.MkdirAll(root2, 0o755); err != nil {
@@ -997,10 +1011,12 @@ func genCase(t *rapid.T) Case {
 	c.Project = projgen.Gen(t, projgen.Config{MinFiles: 8, MaxFiles: 40, ForceBundle: true, ForceESM: true, ForceMetafile: true, AllowRequire: true, InputMaps: true, Placeholders: true})
 	if rapid.IntRange(0, 2).Draw(t, "lengthen") != 0 {
 		var cands []projgen.File
+		reach := projgen.Reachable(&c.Project)
+		anyFile := rapid.IntRange(0, 9).Draw(t, "anyfile") == 9
 		for _, f := range c.Project.Files {
 			switch f.Kind {
 			case projgen.KJS, projgen.KCSS, projgen.KText, projgen.KJSON:
-				if f.Mark != "" {
+				if f.Mark != "" && (reach[f.Path] || anyFile) {
 					cands = append(cands, f)
 				}
 			}
@@ -1022,8 +1038,13 @@ func genCase(t *rapid.T) Case {
 		}
 		c.Lengthen = &Lengthen{Path: f.Path, Anchor: anchor, K: rapid.IntRange(1, 40).Draw(t, "lenk")}
 		if c.Project.Opts.Sourcemap == "inline" || c.Project.Opts.Sourcemap == "both" {
-			c.Project.Opts.Sourcemap = "linked"
+			c.Project.Opts.Sourcemap = "linked" // an inline map embeds (base64) the lengthened source
 		}
+		// Minified identifiers and mangled properties are assigned by character frequency over the whole source
+		// text *including string contents*, so a longer string legitimately reshuffles names (and with them the
+		// need for `x as y` aliases). The exact relation is only promised/asserted without those two options.
+		c.Project.Opts.MinifyIDs = false
+		c.Project.Opts.MangleProps, c.Project.Opts.UseCache, c.Project.Opts.MangleCache = false, false, nil
 	}
 	return c
 }
@@ -1056,6 +1077,9 @@ func TestCheck(t *testing.T) {
 	defer func() { H.Finish(complete) }()
 	H.RunReplays(t, subs)
 	H.Sub(t, "meta", runMeta)
+	if len(harnessPanics) > 0 {
+		t.Fatalf("INFRA: the harness panicked %d time(s); first: %s", len(harnessPanics), harnessPanics[0])
+	}
 	complete = true
 }
 
@@ -1095,5 +1119,17 @@ func TestDump(t *testing.T) {
 			fmt.Printf("=== %s (%d)\n%s\n", o.Path, len(o.Contents), o.Contents)
 		}
 		fmt.Println(b.raw)
+	}
+	if c.Lengthen != nil {
+		p2 := applyLengthen(c.Project, c.Lengthen)
+		root2 := t.TempDir()
+		p2.WriteTo(root2)
+		b2, _ := buildMeta(p2, root2)
+		for _, o := range b2.outs {
+			if strings.HasSuffix(o.Path, ".map") {
+				continue
+			}
+			fmt.Printf("=== B2 %s (%d)\n%s\n", o.Path, len(o.Contents), o.Contents)
+		}
 	}
 }
